@@ -181,6 +181,12 @@ func viaLines(class, tag string) []string {
 		return []string{"Via: 1.1 " + tag + " (a comment)"}
 	case "ownNominated":
 		return []string{"Via: 1.0 first, 1.1 " + tag, "Connection: Via"}
+	case "ownNominatedLower":
+		return []string{"Via: 1.0 first, 1.1 " + tag, "Connection: via"}
+	case "ownNominatedList":
+		return []string{"Via: 1.1 " + tag + ", 1.1 later", "Connection: keep-alive, VIA"}
+	case "othersNominated":
+		return []string{"Via: 1.1 otherproxy, 1.0 older", "Connection: keep-alive, via"}
 	}
 	fatal("unknown via class %q", class)
 	return nil
@@ -189,6 +195,9 @@ func viaLines(class, tag string) []string {
 func viaElems(lines []string) []string {
 	var out []string
 	for _, l := range lines {
+		if !strings.HasPrefix(l, "Via: ") {
+			continue // a Connection line that goes with the chain
+		}
 		v := strings.TrimPrefix(l, "Via: ")
 		for _, p := range strings.Split(v, ",") {
 			out = append(out, strings.TrimSpace(p))
